@@ -430,6 +430,7 @@ func WFAddr(typ string, fields ...string)      {}
 func ModuleAddr(name string) sdk.AccAddress { return authtypes.NewModuleAddress(name) }
 func Blocked(addr sdk.AccAddress) bool      { return w.blocked[string(addr)] }
 func StoreWrites() int                      { return 0 }
+func TypeConfusion() bool                   { return false }
 func EventCount() int                       { return 0 }
 
 func TblGet(t string, k1 []byte, k2 string) *big.Int {
